@@ -15,7 +15,7 @@ const Scenario scen_heap = { "heap", NOOPS_, 1, heap_gen_none, heap_exec_none, "
 #else
 
 enum { H_NEWNODE, H_NEWREF, H_NEWBOX, H_NEWCONT, H_LINK, H_UNLINK, H_SLOTSET, H_SLOTCLR,
-       H_TLSSET, H_TLSREM, H_DEL, H_BURST, H_STOP, H_START, H_CHAIN, H_BADFREE, H_COPY, H_NOPS };
+       H_TLSSET, H_TLSREM, H_DEL, H_BURST, H_STOP, H_START, H_CHAIN, H_BADFREE, H_COPY, H_REGHOLD, H_NOPS };
 static const OpInfo OPS[H_NOPS] = {
   [H_NEWNODE] = { "newnode", 2 },   /* slot cls */
   [H_NEWREF]  = { "newref", 3 },    /* slot target cls */
@@ -34,6 +34,7 @@ static const OpInfo OPS[H_NOPS] = {
   [H_CHAIN]   = { "chain", 2 },     /* slot n */
   [H_BADFREE] = { "badfree", 2 },   /* kind x */
   [H_COPY]    = { "copy", 2 },      /* slot obj */
+  [H_REGHOLD] = { "reghold", 1 },   /* n: a fresh object referenced from a callee-saved register only while n allocations run */
 };
 
 enum { HK_NODE, HK_REF, HK_BOX, HK_ARR, HK_LST, HK_TBLV, HK_TBLK, HK_TREV, HK_TREK, HK_TUP, HK_JUNK, HK_N };
@@ -73,6 +74,7 @@ static int     g_torn_down;
 static int     g_opidx;
 static long    g_collections_seen;    /* sweeps proven by a finalised junk/garbage object */
 static int     g_avoid;
+static int     g_focus;
 static uint32_t* g_seenmark; static uint32_t g_seen_id;
 
 /* header address -> oid (open addressing), for the free hook */
@@ -543,6 +545,29 @@ static void op_copy(const Op* op) {
   stat_add("heap.copy", 1);
 }
 
+/* a root kind of its own: the only reference to a fresh object sits in a callee-saved register while collections run */
+#if defined(__x86_64__) && defined(__GNUC__)
+static __attribute__((noinline)) void op_reghold(const Op* op) {
+  if (g_stopped) return;
+  int n = 4 + (int)(((op->a[0] % 60) + 60) % 60);
+  register struct Node* keep asm("r15");
+  keep = new_with(Node_T, tuple());
+  int oid = new_obj(keep, HK_NODE, CL_MANAGED);
+  keep->canary = CANARY; keep->oid = oid;
+  /* wipe dead frames below us so that no stale copy of the pointer survives on the stack */
+  sim_scrub_stack();
+  do_burst(n);
+  struct Node* volatile now = keep;
+  if (O[oid].finalised || O[oid].freed || arena_state(hdr_of(now)) != BLK_LIVE)
+    HV("C01", "C01:reclaimed-while-reachable:Node:path=register", "object #%d referenced only from a callee-saved register was reclaimed during %d allocations", oid, n);
+  if (now->canary != CANARY) HV("C01", "C01:canary-destroyed:Node:path=register", "object #%d lost its canary", oid);
+  stat_add("heap.register_root", 1);
+  slot_store(0, oid);      /* from here on it is an ordinary stack-rooted object */
+}
+#else
+static void op_reghold(const Op* op) { (void)op; }
+#endif
+
 /* C19: deallocating operations applied to stack / static objects */
 static void op_badfree(const Op* op) {
   int kind = (int)(((op->a[0] % 12) + 12) % 12);
@@ -587,12 +612,16 @@ static void heap_execute(const Plan* p) {
   g_seenmark = harness_alloc(sizeof(uint32_t) * MAXOBJ);
   g_avoid = (int)plan_env(p, "avoid_kf", 0);
   int focus = (int)plan_env(p, "focus", 1);
+  g_focus = focus;
   arena_on_free = on_free_hook;
   static const char* tlskeys[NTLS] = { "tls0", "tls1", "tls2", "tls3" };
   for (int i = 0; i < p->nops; i++) {
     const Op* op = &p->ops[i];
     g_opidx = i;
-    const char* prop = (op->code == H_DEL || op->code == H_STOP || op->code == H_START) ? "C06" : "C01";
+    /* a crash / uncaught exception inside the engine counts against the property whose check is running: C01, C06 and C17
+     * all require collections and deletions to run to completion */
+    const char* prop = focus == 6 ? "C06" : focus == 17 ? "C17" : focus == 19 ? "C19" :
+                       (op->code == H_DEL || op->code == H_STOP || op->code == H_START) ? "C06" : "C01";
     progress(i, prop, OPS[op->code].name);
     ev("op %d %s", i, OPS[op->code].name);
     compute_reach();
@@ -614,18 +643,20 @@ static void heap_execute(const Plan* p) {
       case H_CHAIN: op_chain(op); break;
       case H_BADFREE: op_badfree(op); break;
       case H_COPY: op_copy(op); break;
+      case H_REGHOLD: op_reghold(op); break;
       default: break;
     }
-    if (op->fault == 1) { progress(i, "C01", "burst"); do_burst(10); }
+    if (op->fault == 1) { progress(i, prop, "burst"); do_burst(10); }
     sim_scrub_stack();
-    progress(i, "C01", OPS[op->code].name);
-    check_reachable_alive("after the operation");
-    progress(i, "C17", OPS[op->code].name);
-    if (focus == 17 || (i % 4) == 0 || i == p->nops - 1) check_registry("after the operation");
+    /* each check evaluates its own property's oracle, so that a violation of one property never hides another's
+     * (the exactly-once ledger of C06 lives in the destructor / free hooks and is always on) */
+    if (focus == 0 || focus == 1 || focus == 19) { progress(i, focus == 19 ? "C19" : "C01", OPS[op->code].name); check_reachable_alive("after the operation"); }
+    if (focus == 0 || focus == 17) { progress(i, "C17", OPS[op->code].name); check_registry("after the operation"); }
+    progress(i, prop, OPS[op->code].name);
     ev("n=%d live=%ld", g_nobj, arena_live_count());
   }
   /* teardown: objects allocated while the collector was stopped are the program's to delete */
-  progress(p->nops, "C06", "teardown");
+  progress(p->nops, focus == 17 ? "C17" : focus == 1 ? "C01" : "C06", "teardown");
   if (g_stopped) { start(current(GC)); g_stopped = 0; }
   for (int i = 0; i < g_nobj; i++) if (O[i].alive && O[i].cls == CL_UNREG && O[i].owner < 0 && O[i].kind != HK_JUNK) { var q = O[i].ptr; kill_obj(i); del(q); }
   for (int i = 0; i < NTLS; i++) if (g_tls_oid[i] >= 0) { rem(current(Thread), $S((char*)tlskeys[i])); g_tls_oid[i] = -1; }
@@ -664,7 +695,9 @@ static void heap_nontrivial(void) {
   int f = 0;
   /* the rule depends on the property the run was generated for (env focus) */
   long coll = stat_get("heap.collections_seen");
-  if (coll > 0 && stat_get("heap.checks_with_nonstack_reachable") > 0) f = 1;
+  if (g_focus == 6) f = coll > 0 && (stat_get("heap.new_box") > 0 || stat_get("heap.stop") > 0) && stat_get("heap.freed_at_teardown") > 0;
+  else if (g_focus == 17) f = coll > 0 && stat_get("reg.grow") >= 3 && stat_get("reg.shrink") >= 1;
+  else if (coll > 0 && stat_get("heap.checks_with_nonstack_reachable") > 0) f = 1;
   if (f) mark_nontrivial();
 }
 
@@ -702,7 +735,8 @@ static void heap_generate(Plan* p, Rng* r) {
     else if (d < (uint32_t)(focus == 6 || focus == 17 ? 91 : 87)) plan_add(p, H_DEL, 0, fault, a, 0, 0, 0, 0, 0);
     else if (d < 94) plan_add(p, H_BURST, 0, 0, a, 0, 0, 0, 0, 0);
     else if (d < 96) { if (allow_stop) { plan_add(p, stopped ? H_START : H_STOP, 0, 0, 0, 0, 0, 0, 0, 0); stopped = !stopped; } else plan_add(p, H_BURST, 0, 0, a, 0, 0, 0, 0, 0); }
-    else if (d < 98) plan_add(p, H_COPY, 0, fault, a, b, 0, 0, 0, 0);
+    else if (d < 97) plan_add(p, H_COPY, 0, fault, a, b, 0, 0, 0, 0);
+    else if (d < 98) plan_add(p, H_REGHOLD, 0, 0, a, 0, 0, 0, 0, 0);
     else { int64_t n = rng_chance(r, 1, 4) ? 1000 + rng_below(r, 9000) : 5 + rng_below(r, 300); if (focus == 17) n = 5 + rng_below(r, 200); plan_add(p, H_CHAIN, 0, 0, a, n, 0, 0, 0, 0); }
   }
 }
